@@ -182,7 +182,7 @@ impl Prop for C14 {
     fn plan(&self, tier: Tier) -> Plan {
         let mut p = Plan::new(match tier {
             Tier::Quick => 6000,
-            Tier::Thorough => 10_000,
+            Tier::Thorough => 60_000,
         });
         p.workers = 12;
         p.cases_per_process = 300;
